@@ -378,3 +378,98 @@ func TestVerifC03LookupHost(t *testing.T) {
 	}
 	L.End(true)
 }
+
+// special shapes the small alphabets of c03-select cannot hold: IPv6 literal hosts and long pattern lists
+func TestVerifC03Special(t *testing.T) {
+	L := ev.Begin("C03", "c03-special", "exploration",
+		"(a) IPv6 literal route hosts ([::1], [::1]:8080, [2001:db8::1]; glob matching disabled, since brackets are a glob class) x request hosts with no port, the scheme's default port, the other scheme's default port and another port, plain and TLS; expected = the route whose host equals the request host once the default port is removed. (b) 14 wildcard host patterns of growing suffix length that all match one request host (more than a small-slice sort handles specially), in 3 insertion orders, with and without the exact host: expected = the exact host if present, else the longest suffix. non-trivial = every lookup")
+	gc := NewGlobCache(100)
+	// (a)
+	v6 := []string{"[::1]", "[::1]:8080", "[2001:db8::1]"}
+	var sb strings.Builder
+	for i, h := range v6 {
+		fmt.Fprintf(&sb, "route add s%d %s/ http://10.0.0.%d:80/\n", i, h, i+1)
+	}
+	sb.WriteString("route add fallback / http://10.0.0.9:80/\n")
+	tbl, err := vfTable(sb.String())
+	if err != nil {
+		panic("VERIF-INFRA: " + err.Error())
+	}
+	for _, tls := range []bool{false, true} {
+		for _, rq := range []string{"[::1]", "[::1]:80", "[::1]:443", "[::1]:8080", "[2001:db8::1]", "[2001:db8::1]:80", "[2001:db8::1]:443", "[2001:db8::2]"} {
+			norm := rq
+			if !tls {
+				norm = strings.TrimSuffix(norm, ":80")
+			} else {
+				norm = strings.TrimSuffix(norm, ":443")
+			}
+			want := "fallback"
+			for i, h := range v6 {
+				if h == norm {
+					want = fmt.Sprintf("s%d", i)
+				}
+			}
+			L.Case()
+			L.NontrivialKey(fmt.Sprint("v6", rq, tls))
+			var tg *Target
+			msg, _, pan := ev.Guard(func() { tg = tbl.Lookup(vfReq(rq, "/", tls), "", rrPicker, prefixMatcher, gc, true) })
+			got := "<none>"
+			if tg != nil {
+				got = tg.Service
+			}
+			L.Outcome(got)
+			if pan || got != want {
+				L.Violation("not-most-specific/ipv6-literal-host", map[string]interface{}{"table": strings.Split(strings.TrimSpace(sb.String()), "\n"), "host": rq, "tls": tls, "got": got, "want": want, "panic": msg})
+			}
+		}
+	}
+	// (b)
+	labels := []string{"com", "example", "n", "m", "l", "k", "j", "i", "h", "g", "f", "e", "d", "c"}
+	var pats []string
+	suffix := ""
+	for _, l := range labels {
+		suffix = "." + l + suffix
+		pats = append(pats, "*"+suffix)
+	}
+	full := "b" + suffix // matched by every pattern
+	orders := [][]int{nil, nil, nil}
+	for i := range pats {
+		orders[0] = append(orders[0], i)
+		orders[1] = append(orders[1], len(pats)-1-i)
+		orders[2] = append(orders[2], (i*5)%len(pats))
+	}
+	for oi, ord := range orders {
+		for _, withExact := range []bool{false, true} {
+			var sb strings.Builder
+			for _, i := range ord {
+				fmt.Fprintf(&sb, "route add p%d %s/ http://10.0.0.1:80/\n", i, pats[i])
+			}
+			if withExact {
+				fmt.Fprintf(&sb, "route add exact %s/ http://10.0.0.2:80/\n", full)
+			}
+			tbl, err := vfTable(sb.String())
+			if err != nil {
+				panic("VERIF-INFRA: " + err.Error())
+			}
+			for _, rq := range []string{full, "x." + full[2:], strings.ToUpper(full)} {
+				want := fmt.Sprintf("p%d", len(pats)-1)
+				if withExact && strings.ToLower(rq) == full {
+					want = "exact"
+				}
+				L.Case()
+				L.NontrivialKey(fmt.Sprint("many", oi, withExact, rq))
+				var tg *Target
+				msg, _, pan := ev.Guard(func() { tg = tbl.Lookup(vfReq(rq, "/", false), "", rrPicker, prefixMatcher, gc, false) })
+				got := "<none>"
+				if tg != nil {
+					got = tg.Service
+				}
+				L.Outcome(got)
+				if pan || got != want {
+					L.Violation("not-most-specific/many-matching-patterns", map[string]interface{}{"patterns": len(pats), "insertion_order": oi, "exact_host_present": withExact, "host": rq, "got": got, "want": want, "panic": msg})
+				}
+			}
+		}
+	}
+	L.End(true)
+}
